@@ -21,7 +21,7 @@ type archetype struct {
 	tables         tableIDs                 // all active tables
 	mask           bitMask                  // Bit mask for the archetype's components
 	id             archetypeID              // ID of the archetype
-	numRelations   uint8                    // number of relation components
+	numRelations   uint16                   // number of relation components (up to 256)
 }
 
 type archetypeData struct {
@@ -109,7 +109,7 @@ func newArchetype(
 		zeroValue = make([]byte, maxSize)
 	}
 
-	numRelations := uint8(0)
+	numRelations := uint16(0)
 	isRelation := make([]bool, len(components))
 	relationTables := make([]map[entityID]*tableIDs, len(components))
 	for i, id := range components {
@@ -162,7 +162,7 @@ func (a *archetype) GetTable(storage *storage, relations []relationID) (*table, 
 
 // slow path for GetTable for archetypes with relations.
 func (a *archetype) getTableSlowPath(storage *storage, relations []relationID) (*table, bool) {
-	if uint8(len(relations)) < a.numRelations {
+	if uint16(len(relations)) < a.numRelations {
 		panic("relation targets must be fully specified")
 	}
 	if len(relations) > 1 && !a.coversAllRelations(relations) {
@@ -187,7 +187,7 @@ func (a *archetype) getTableSlowPath(storage *storage, relations []relationID) (
 // coversAllRelations checks whether the given relations name at least as many
 // distinct components as the archetype has relation components.
 func (a *archetype) coversAllRelations(relations []relationID) bool {
-	distinct := uint8(0)
+	distinct := uint16(0)
 	for i := range relations {
 		seen := false
 		for j := range i {
